@@ -12,7 +12,7 @@ import (
 func init() {
 	register(&PropRules{
 		ID:      "C07",
-		Explain: "Structural necessary conditions of session-token security decided on every CFG path of the session code: (C07.1) the AEAD key is a fresh make([]byte,16|24|32) filled by crypto/rand.Read with the failure branch leaving, used for aes.NewCipher and nothing else; the factory's fields are written only in its constructor; (C07.2) every AEAD.Seal takes a nonce that is a fresh make([]byte, NonceSize()) of that call, filled by crypto/rand.Read with checked error/length; (C07.3) openToken returns 200 only under Open err==nil and returns exactly the opened plaintext; Check may return 200 only by delegating to splitCheckToken on that plaintext, with nonce and ciphertext the two base64url-decoded halves (decode errors leave); (C07.4) splitCheckToken returns 200 only under 3 parts, flag exactly \"true\"/\"false\" (admin only on \"true\"), ParseInt ok, age>=0 and age<=lifetime with age = time.Since(time.Unix(parsed,0)) and lifetime the constructor argument; (C07.5) Generate seals Sprintf(\"%s:%t:%d\", user, admin, now) and the reader splits on the same separator into the same positions; both token halves use base64.URLEncoding on both sides.",
+		Explain: "Structural necessary conditions of session-token security decided on every CFG path of the session code: (C07.1) the AEAD key is a fresh make([]byte,16|24|32) filled by crypto/rand.Read (or io.ReadFull on crypto/rand.Reader) with the failure branch leaving, used for aes.NewCipher and nothing else, written by nothing but the fill until the cipher has its own copy (a wipe after aes.NewCipher is not a use; that NewCipher does not keep the slice is read from crypto/aes); the factory's fields are written only in its constructor, on its fresh object; (C07.2) every AEAD.Seal takes a nonce that is a fresh make([]byte, NonceSize()) of that call, filled by crypto/rand.Read with checked error/length; (C07.3) the opening function reports success (status 200 / nil error object) only under Open err==nil and returns exactly the opened plaintext; Check may return a possibly-200 status only on that plaintext after a successful open — by delegating to splitCheckToken, or with the parse-and-window logic interpreted inline — with nonce and ciphertext the two base64url-decoded halves (decode errors leave); a status read from an error object counts as non-200 only if that field is given nothing but constants other than 200 anywhere; (C07.4) splitCheckToken (or Check itself, on the opened plaintext) returns 200 only under 3 parts, flag exactly \"true\"/\"false\" (admin only on \"true\"), ParseInt ok, age>=0 and age<=lifetime with age = time.Since(time.Unix(parsed,0)) (= now.Sub(…) with now = time.Now() or a clock field that holds time.Now in every object) and lifetime the constructor argument; (C07.5) Generate seals Sprintf(\"%s:%t:%d\", user, admin, now) and the reader splits on the same separator into the same positions; both token halves use base64.URLEncoding on both sides.",
 		Undec:   []string{"AES-GCM's unforgeability and the CSPRNG (trusted)", "nonce collision probability of random 96-bit nonces", "the base64 text layer (excluded by the property itself)", "wall-clock behaviour"},
 		Run:     runC07,
 		Floors:  map[string]int{"C07.1": 3, "C07.2": 1, "C07.3": 2, "C07.4": 1, "C07.5": 2},
@@ -69,12 +69,14 @@ func runC07(c *an.Ctx, p *an.Prog, thorough bool) {
 	for _, fn := range ctors {
 		for _, ci := range an.CallsTo(fn, "crypto/aes.NewCipher") {
 			var bad []string
+			keyTerms := map[string]bool{}
 			er := an.EnumPaths(fn, nil, ci, func(s *an.PathState) {
 				k := s.CallArgs(ci)[0]
 				if k.Op != "make" || k.Aux != "slice" {
 					bad = append(bad, "key is not a fresh make([]byte, n) of this call: "+k.K)
 					return
 				}
+				keyTerms[k.K] = true
 				if n, ok := k.Args[0].ConstInt(); !ok || !(n == 16 || n == 24 || n == 32) {
 					bad = append(bad, "key length is not a constant AES key size: "+k.Args[0].K)
 				}
@@ -92,17 +94,91 @@ func runC07(c *an.Ctx, p *an.Prog, thorough bool) {
 							}
 						}
 					}
+					// an element of the key written between the fill and the cipher setup: the cipher gets other bytes
+					// than the random ones (a wipe that runs too early leaves an all-zero key)
+					if e.Kind == "store" && len(e.Args) == 2 && e.Args[0] != nil && e.Args[0].Op == "indexaddr" && rootedInSet(e.Args[0], keyTerms) {
+						bad = append(bad, "key bytes are overwritten between the random fill and aes.NewCipher")
+					}
 				}
 			})
 			if !er.Complete {
 				bad = append(bad, "path limit")
 			}
 			c.Check(len(bad) == 0, "C07.1", fnKey(fn)+"|key-fresh-random", p.InstrPos(ci), "AES key = fresh make([]byte,n) filled by crypto/rand.Read (error checked), nothing in between", strings.Join(uniqS(bad), "; "))
-			// the key value flows nowhere else
+			// the key value flows nowhere else: (a) every use the SSA shows, through local variable cells and the closures
+			// that are interpreted inline; (b) on every complete path of the constructor (deferred calls included, where
+			// they run) the key bytes only reach the random fill, len and aes.NewCipher, and are written by nothing but
+			// the fill before the cipher exists. Clearing the buffer *after* aes.NewCipher is not a use of the key: the
+			// cipher works on its own expanded copy (read from crypto/aes itself, newCipherKeepsKey).
+			keeps := newCipherKeepsKey(p)
 			origin, stack := bufferOrigin(ci.Common().Args[0], nil, 0)
 			if origin != nil {
-				leaks := valueLeaks(p, origin, stack, map[string]bool{"crypto/rand.Read": true, "crypto/aes.NewCipher": true, "builtin len": true, "io.ReadFull": true})
-				c.Check(len(leaks) == 0, "C07.1", fnKey(fn)+"|key-confined", p.InstrPos(ci), "the key slice is used only by rand.Read, len and aes.NewCipher (never logged, stored or returned)", strings.Join(leaks, "; "))
+				leaks := valueLeaks(p, origin, stack, map[string]bool{"crypto/rand.Read": true, "crypto/aes.NewCipher": true, "builtin len": true, "io.ReadFull": true, "builtin clear": !keeps})
+				er := an.EnumPaths(fn, nil, nil, func(s *an.PathState) {
+					iN := -1
+					for i, e := range s.Events {
+						if iN < 0 && e.Kind == "call" && !e.Deferred && e.Callee == "crypto/aes.NewCipher" && len(e.Args) == 1 && rootedInSet(e.Args[0], keyTerms) {
+							iN = i
+						}
+					}
+					for i, e := range s.Events {
+						// the cipher has its own copy, or no cipher is ever built from this buffer on this path
+						after := !keeps && (iN < 0 || i > iN)
+						switch e.Kind {
+						case "store":
+							if len(e.Args) != 2 || e.Args[0] == nil {
+								continue
+							}
+							if e.Args[0].Op == "indexaddr" && rootedInSet(e.Args[0], keyTerms) {
+								if !after {
+									leaks = append(leaks, "key bytes overwritten before aes.NewCipher has taken its copy (path "+s.BlockPath()+")")
+								}
+								continue
+							}
+							if e.Args[1] != nil && rootedInSet(e.Args[1], keyTerms) && e.Args[0].Op != "alloc" {
+								leaks = append(leaks, "key stored to "+e.Args[0].K)
+							}
+						case "call", "defer", "go":
+							for j, a := range e.Args {
+								if a == nil || !rootedInSet(a, keyTerms) {
+									continue
+								}
+								switch {
+								case e.Callee == "builtin len", e.Callee == "builtin cap", e.Callee == "crypto/aes.NewCipher", e.Callee == "crypto/rand.Read":
+								case e.Callee == "io.ReadFull" && j == 1:
+								case e.Callee == "builtin clear" && (e.Kind == "defer" || after):
+									// (a defer statement only registers the call; the call itself appears where it runs)
+								case e.Callee == "builtin clear":
+									leaks = append(leaks, "key cleared before aes.NewCipher has taken its copy (path "+s.BlockPath()+")")
+								default:
+									leaks = append(leaks, "key passed to "+shortName(e.Callee)+" ("+e.Kind+")")
+								}
+							}
+						case "send", "mapupdate", "return", "panic":
+							for _, a := range e.Args {
+								if a != nil && rootedInSet(a, keyTerms) {
+									leaks = append(leaks, "key reaches a "+e.Kind)
+								}
+							}
+						}
+					}
+				})
+				if !er.Complete {
+					leaks = append(leaks, "path limit")
+				}
+				// the source of randomness is the process CSPRNG: nothing in the module replaces crypto/rand.Reader
+				for _, f := range p.RepoFns {
+					for _, b := range f.Blocks {
+						for _, in := range b.Instrs {
+							if st, ok := in.(*ssa.Store); ok {
+								if g, ok := st.Addr.(*ssa.Global); ok && g.Pkg != nil && g.Pkg.Pkg.Path() == "crypto/rand" {
+									leaks = append(leaks, "crypto/rand."+g.Name()+" is replaced in "+fnKey(f))
+								}
+							}
+						}
+					}
+				}
+				c.Check(len(leaks) == 0, "C07.1", fnKey(fn)+"|key-confined", p.InstrPos(ci), "the key slice is used only by rand.Read, len and aes.NewCipher (never logged, stored or returned); it is written by nothing but the random fill until the cipher has its own copy", strings.Join(uniqS(leaks), "; "))
 			} else {
 				c.Fail("C07.1", fnKey(fn)+"|key-confined", p.InstrPos(ci), "key operand is not a local make([]byte,…)")
 			}
@@ -124,7 +200,9 @@ func runC07(c *an.Ctx, p *an.Prog, thorough bool) {
 						continue
 					}
 					n++
-					_, isAlloc := fa.X.(*ssa.Alloc)
+					// the constructor's own fresh object: allocated here, by a private allocating helper, or read back
+					// from the local variable (named result) that holds nothing but such objects
+					isAlloc := freshObjectVia(fa.X)
 					isCtor := false
 					for _, ct := range ctors {
 						if ct == fn {
@@ -192,60 +270,18 @@ func runC07(c *an.Ctx, p *an.Prog, thorough bool) {
 
 	aeadOpenPrecondition(c, p, "C07.3")
 	// ---- C07.3 open failure is fatal ----
-	var openFn *ssa.Function
-	for _, fn := range pkgFns(p, mainPkg) {
-		for _, in := range an.DeepInstrs(fn) {
-			{
-				if ci, ok := in.(ssa.CallInstruction); ok && ci.Common().IsInvoke() && ci.Common().Method.Name() == "Open" && strings.Contains(ci.Common().Value.Type().String(), "cipher.AEAD") {
-					openFn = fn
-				}
-			}
-		}
-	}
-	split := p.Method("/cmd/whawty-auth", "webSessionFactory", "splitCheckToken")
-	check := p.Method("/cmd/whawty-auth", "webSessionFactory", "Check")
-	mergedOpen := openFn != nil && openFn == check // Open is called by Check itself (no opening helper)
+	sc := analyseSessionCode(p)
+	openFn, split, check, mergedOpen := sc.openFn, sc.split, sc.check, sc.mergedOpen
 	if mergedOpen {
 		c.OK("C07.3", fnKey(openFn)+"|200-only-if-opened", p.Pos(openFn.Pos()), "Check calls AEAD.Open itself: 'only after Open err==nil, on the opened plaintext' is decided by the delegation rule below")
 	}
 	if need(c, "C07.3", openFn, "function invoking cipher.AEAD.Open") && !mergedOpen {
-		var bad []string
-		n200 := 0
-		an.EnumPaths(openFn, nil, nil, func(s *an.PathState) {
-			ret := lastReturn(s)
-			if ret == nil {
-				return
-			}
-			st := ret.Args[0]
-			if v, ok := st.ConstInt(); ok && v != 200 {
-				return
-			}
-			n200++
-			var open *an.Term
-			for _, e := range s.Events {
-				if e.Kind == "call" && strings.HasSuffix(e.Callee, "cipher.AEAD.Open") {
-					open = e.Res
-				}
-			}
-			if open == nil || !extractNil(s, open, 1) {
-				bad = append(bad, "status "+st.K+" returned without Open err==nil on path "+s.BlockPath())
-				return
-			}
-			tok := ret.Args[len(ret.Args)-1].StripConv()
-			if tok.K != extractOf(open, 0).K {
-				bad = append(bad, "returned token is not the opened plaintext: "+tok.K)
-			}
-			// Open is given the parameters nonce and ciphertext, no additional data surprises
-			if !(open.Args[2].Op == "param" && open.Args[3].Op == "param") {
-				bad = append(bad, "Open operands are not the function's nonce/ciphertext parameters")
-			}
-			if a0 := open.Args[0]; !(a0.Op == "load" && a0.Args[0].Aux == "aesgcm") {
-				bad = append(bad, "Open is not invoked on the factory's AEAD")
-			}
-		})
-		c.Check(len(bad) == 0 && n200 > 0, "C07.3", fnKey(openFn)+"|200-only-if-opened", p.Pos(openFn.Pos()), "status 200 only under AEAD.Open err==nil, token = opened plaintext", strings.Join(uniqS(bad), "; "))
+		c.Check(len(sc.bad) == 0 && sc.n200 > 0, "C07.3", fnKey(openFn)+"|200-only-if-opened", p.Pos(openFn.Pos()), "success ("+sc.conv.String()+") only under AEAD.Open err==nil, token = opened plaintext", strings.Join(uniqS(sc.bad), "; "))
 	}
-	if need(c, "C07.3", check, "main.(*webSessionFactory).Check") && need(c, "C07.3", split, "main.(*webSessionFactory).splitCheckToken") && openFn != nil {
+	// Where the parse-and-window logic lives: in the pinned splitCheckToken (Check must then delegate to it), or — when a
+	// refactoring has dissolved that function into helpers — inline in Check, where C07.4 is evaluated on the opened
+	// plaintext itself.
+	if need(c, "C07.3", check, "main.(*webSessionFactory).Check") && openFn != nil {
 		var bad []string
 		nOK := 0
 		an.EnumPaths(check, nil, nil, func(s *an.PathState) {
@@ -254,66 +290,37 @@ func runC07(c *an.Ctx, p *an.Prog, thorough bool) {
 				return
 			}
 			st := ret.Args[0]
-			if v, ok := st.ConstInt(); ok && v != 200 {
-				return
-			}
-			if s.Ne(st, &an.Term{K: "c:200", Op: "const", Aux: "200"}) {
-				return // forwarded non-200 status
+			if never200(p, s, st) {
+				return // a refusal: constant or forwarded non-200 status
 			}
 			nOK++
-			sc, i := st.CallOf()
-			if sc == nil || (sc.Aux != split.String() && staticCallee(sc) != split) || i != 0 {
-				bad = append(bad, "a possibly-200 status is returned that is not splitCheckToken's: "+st.K+" (path "+s.BlockPath()+")")
-				return
-			}
-			for j := 1; j < 4; j++ {
-				if ret.Args[j].K != extractOf(sc, j).K {
-					bad = append(bad, fmt.Sprintf("result %d is not splitCheckToken's result %d", j, j))
+			tok, nonce, ct, why := sc.opened(s)
+			if split != nil {
+				scl, i := st.CallOf()
+				if scl == nil || (scl.Aux != split.String() && staticCallee(scl) != split) || i != 0 {
+					bad = append(bad, "a possibly-200 status is returned that is not splitCheckToken's: "+st.K+" (path "+s.BlockPath()+")")
+					return
 				}
-			}
-			// openToken status == 200 and its token is what is split
-			var ot *an.Term
-			opnd := 1 // position of the nonce operand in ot's arguments
-			for _, e := range s.Events {
-				if !mergedOpen && e.Kind == "call" && e.Fn == openFn {
-					ot = e.Res
-				}
-				if mergedOpen && e.Kind == "call" && strings.HasSuffix(e.Callee, "cipher.AEAD.Open") {
-					ot = e.Res
-					opnd = 2
-				}
-			}
-			if ot == nil {
-				bad = append(bad, "splitCheckToken reached without openToken")
-				return
-			}
-			if !mergedOpen {
-				ok200 := false
-				for _, a := range s.Atoms {
-					if a.Op == "==" && a.B.IsConst("200") && a.A.K == extractOf(ot, 0).K {
-						ok200 = true
+				for j := 1; j < 4; j++ {
+					if ret.Args[j].K != extractOf(scl, j).K {
+						bad = append(bad, fmt.Sprintf("result %d is not splitCheckToken's result %d", j, j))
 					}
 				}
-				if !ok200 {
-					bad = append(bad, "splitCheckToken reached without openToken status==200 (path "+s.BlockPath()+")")
+				// the opening succeeded and its token is what is split
+				if why != "" {
+					bad = append(bad, "splitCheckToken "+why)
+					return
 				}
-				if sc.Args[1].K != extractOf(ot, 2).K {
-					bad = append(bad, "splitCheckToken is applied to "+sc.Args[1].K+", not to the opened token")
+				if scl.Args[1].StripConv().K != tok.StripConv().K {
+					bad = append(bad, "splitCheckToken is applied to "+scl.Args[1].K+", not to the opened plaintext")
 				}
-			} else {
-				if !extractNil(s, ot, 1) {
-					bad = append(bad, "splitCheckToken reached without AEAD.Open err==nil (path "+s.BlockPath()+")")
-				}
-				if sc.Args[1].StripConv().K != extractOf(ot, 0).K {
-					bad = append(bad, "splitCheckToken is applied to "+sc.Args[1].K+", not to the opened plaintext")
-				}
-				if a0 := ot.Args[0]; !(a0.Op == "load" && a0.Args[0].Aux == "aesgcm") {
-					bad = append(bad, "Open is not invoked on the factory's AEAD")
-				}
+			} else if why != "" {
+				// (user name, flag and window of such a path are C07.4, evaluated on Check)
+				bad = append(bad, "a possibly-200 status "+st.K+" is "+why)
+				return
 			}
 			// nonce and ciphertext: URL-base64 decoded halves [0] and [1] of SplitN(session, ":", 2), errors checked
-			for k, want := range []string{"0", "1"} {
-				arg := ot.Args[opnd+k]
+			for k, arg := range []*an.Term{nonce, ct} {
 				dc, di := arg.CallOf()
 				if dc == nil || di != 0 || dc.Aux != "(*encoding/base64.Encoding).DecodeString" {
 					bad = append(bad, fmt.Sprintf("openToken operand %d is not a base64 DecodeString result: %s", k, arg.K))
@@ -329,20 +336,85 @@ func runC07(c *an.Ctx, p *an.Prog, thorough bool) {
 				hf, okHalf := splitField(s, half)
 				okHalf = okHalf && hf.is(s.T(check.Params[1]), ":", k, 2) && hf.Present
 				if !okHalf {
-					bad = append(bad, fmt.Sprintf("token half %d is not element %s of SplitN(session, \":\", 2): %s", k, want, half.K))
+					bad = append(bad, fmt.Sprintf("token half %d is not element %d of SplitN(session, \":\", 2): %s", k, k, half.K))
 				}
 			}
 		})
-		c.Check(len(bad) == 0 && nOK > 0, "C07.3", fnKey(check)+"|delegation", p.Pos(check.Pos()), "Check can answer 200 only with splitCheckToken's results on the plaintext opened from the two decoded halves", strings.Join(uniqS(bad), "; "))
+		what := "Check can answer 200 only with splitCheckToken's results on the plaintext opened from the two decoded halves"
+		if split == nil {
+			what = "Check can answer 200 only on the plaintext opened (successfully) from the two decoded halves; parse and window are decided on Check (C07.4)"
+		}
+		c.Check(len(bad) == 0 && nOK > 0, "C07.3", fnKey(check)+"|delegation", p.Pos(check.Pos()), what, strings.Join(uniqS(bad), "; "))
 	}
 
 	// ---- C07.4 parse and window ----
-	if split != nil {
-		sessionWindowRule(c, p, "C07.4")
-	}
+	sessionWindowRule(c, p, "C07.4")
 
 	// ---- C07.5 format agreement ----
+	// the functions that seal (with their inline helpers), and where each returns the nonce and the ciphertext
+	type sealShape struct{ ptP, nonceIdx, ctIdx int }
 	gen := p.Method("/cmd/whawty-auth", "webSessionFactory", "Generate")
+	sealers := map[*ssa.Function]*sealShape{}
+	for _, fn := range pkgFns(p, mainPkg) {
+		for _, in := range an.DeepInstrs(fn) {
+			{
+				ci, ok := in.(ssa.CallInstruction)
+				if !ok || !ci.Common().IsInvoke() || ci.Common().Method.Name() != "Seal" {
+					continue
+				}
+				var bad []string
+				if fn == gen {
+					c.OK("C07.5", fnKey(fn)+"|seal-shape", p.InstrPos(in), "Generate seals itself: plaintext and the encoded (nonce, ciphertext) are checked by writer-format")
+					continue
+				}
+				sh := &sealShape{-1, -1, -1}
+				an.EnumPaths(fn, nil, nil, func(s *an.PathState) {
+					idx := indexOfInstr(s.Events, in)
+					if idx < 0 {
+						return
+					}
+					ev := s.Events[idx]
+					ret := lastReturn(s)
+					if ret == nil {
+						return
+					}
+					pt := ev.Args[3].StripConv()
+					ptP := -1
+					for i, prm := range fn.Params {
+						if pt.Op == "param" && s.T(prm).K == pt.K {
+							ptP = i
+						}
+					}
+					if ptP < 0 || (sh.ptP >= 0 && sh.ptP != ptP) {
+						bad = append(bad, "sealed plaintext is not the function's token parameter: "+pt.K)
+					} else {
+						sh.ptP = ptP
+					}
+					if !ev.Args[1].IsConst("nil") {
+						bad = append(bad, "Seal appends to a non-nil destination")
+					}
+					ni, ci := -1, -1
+					for i, a := range ret.Args {
+						if a != nil && a.K == ev.Args[2].K {
+							ni = i
+						}
+						if a != nil && a.K == ev.Res.K {
+							ci = i
+						}
+					}
+					if ni < 0 || ci < 0 || ni >= ci || (sh.nonceIdx >= 0 && (sh.nonceIdx != ni || sh.ctIdx != ci)) {
+						bad = append(bad, "results are not (…, nonce, ciphertext, …) of this Seal")
+					} else {
+						sh.nonceIdx, sh.ctIdx = ni, ci
+					}
+				})
+				if len(bad) == 0 && sh.ptP >= 0 && sh.nonceIdx >= 0 {
+					sealers[fn] = sh
+				}
+				c.Check(len(bad) == 0, "C07.5", fnKey(fn)+"|seal-shape", p.InstrPos(in), "Seal(nil, nonce, []byte(token), nil) and the function returns that nonce and ciphertext", strings.Join(uniqS(bad), "; "))
+			}
+		}
+	}
 	if need(c, "C07.5", gen, "main.(*webSessionFactory).Generate") {
 		var bad []string
 		nOK := 0
@@ -352,27 +424,28 @@ func runC07(c *an.Ctx, p *an.Prog, thorough bool) {
 				return
 			}
 			if v, ok := ret.Args[0].ConstInt(); !ok || v != 200 {
-				if !ok && !s.Ne(ret.Args[0], &an.Term{K: "c:200"}) {
+				if !ok && !never200(p, s, ret.Args[0]) {
 					bad = append(bad, "status of Generate is not a constant on path "+s.BlockPath())
 				}
 				return
 			}
 			nOK++
-			// plaintext
+			// plaintext: the operand of the sealing function (a pinned function that seals and returns nonce and
+			// ciphertext, seal-shape above) …
 			var seal *an.Event
-			for i := range s.Events {
-				e := &s.Events[i]
-				if e.Kind == "call" && e.Fn != nil && len(an.CallsTo(e.Fn, "crypto/rand.Read")) > 0 && e.Fn.Pkg != nil && an.FnPkgPath(e.Fn) == mainPkg {
-					seal = e
-				}
-			}
-			// without a sealing helper Generate calls AEAD.Seal itself: plaintext operand 3, results (nonce operand, Seal result)
 			var sealedPT *an.Term
 			halves := [2]*an.Term{}
-			if seal != nil {
-				sealedPT = seal.Args[1]
-				halves[0], halves[1] = extractOf(seal.Res, 2), extractOf(seal.Res, 3)
-			} else {
+			for i := range s.Events {
+				e := &s.Events[i]
+				if e.Kind == "call" && e.Fn != nil && sealers[e.Fn] != nil && sealers[e.Fn].ptP < len(e.Args) {
+					sh := sealers[e.Fn]
+					seal = e
+					sealedPT = e.Args[sh.ptP]
+					halves[0], halves[1] = extractOf(e.Res, sh.nonceIdx), extractOf(e.Res, sh.ctIdx)
+				}
+			}
+			// … or Generate calls AEAD.Seal itself: plaintext operand 3, results (nonce operand, Seal result)
+			if seal == nil {
 				for i := range s.Events {
 					e := &s.Events[i]
 					if e.Kind == "call" && strings.HasSuffix(e.Callee, "cipher.AEAD.Seal") {
@@ -393,7 +466,7 @@ func runC07(c *an.Ctx, p *an.Prog, thorough bool) {
 				okArgs := va.Op == "varargs" && len(va.Args) == 3 && va.Args[0].K == s.T(gen.Params[1]).K && va.Args[1].K == s.T(gen.Params[2]).K
 				if okArgs {
 					ux, _ := va.Args[2].CallOf()
-					okArgs = ux != nil && ux.Aux == "(time.Time).Unix" && ux.Args[0].IsCallTo("time.Now")
+					okArgs = ux != nil && ux.Aux == "(time.Time).Unix" && isNow(p, ux.Args[0])
 				}
 				if !okArgs {
 					bad = append(bad, "plaintext fields are not (username, isAdmin, time.Now().Unix()) in this order")
@@ -418,68 +491,54 @@ func runC07(c *an.Ctx, p *an.Prog, thorough bool) {
 		})
 		c.Check(len(bad) == 0 && nOK > 0, "C07.5", fnKey(gen)+"|writer-format", p.Pos(gen.Pos()), "writer: \"%s:%t:%d\" of (user, admin, now) sealed; text \"%s:%s\" of URL-base64(nonce), URL-base64(ciphertext) — matches the reader's SplitN(…,\":\",3) / SplitN(…,\":\",2) positions checked in C07.3/C07.4", strings.Join(uniqS(bad), "; "))
 	}
-	// sealToken seals exactly its token parameter and returns (nonce, ciphertext) in that order
-	for _, fn := range pkgFns(p, mainPkg) {
-		for _, in := range an.DeepInstrs(fn) {
-			{
-				ci, ok := in.(ssa.CallInstruction)
-				if !ok || !ci.Common().IsInvoke() || ci.Common().Method.Name() != "Seal" {
-					continue
-				}
-				var bad []string
-				if fn == gen {
-					c.OK("C07.5", fnKey(fn)+"|seal-shape", p.InstrPos(in), "Generate seals itself: plaintext and the encoded (nonce, ciphertext) are checked by writer-format")
-					continue
-				}
-				an.EnumPaths(fn, nil, nil, func(s *an.PathState) {
-					idx := indexOfInstr(s.Events, in)
-					if idx < 0 {
-						return
-					}
-					ev := s.Events[idx]
-					ret := lastReturn(s)
-					if ret == nil {
-						return
-					}
-					pt := ev.Args[3].StripConv()
-					if pt.Op != "param" {
-						bad = append(bad, "sealed plaintext is not the function's token parameter: "+pt.K)
-					}
-					if !ev.Args[1].IsConst("nil") {
-						bad = append(bad, "Seal appends to a non-nil destination")
-					}
-					n := len(ret.Args)
-					if n < 2 || ret.Args[n-2].K != ev.Args[2].K || ret.Args[n-1].K != ev.Res.K {
-						bad = append(bad, "results are not (…, nonce, ciphertext) of this Seal")
-					}
-				})
-				c.Check(len(bad) == 0, "C07.5", fnKey(fn)+"|seal-shape", p.InstrPos(in), "Seal(nil, nonce, []byte(token), nil) and the function returns that nonce and ciphertext", strings.Join(uniqS(bad), "; "))
-			}
-		}
-	}
 }
 
-// sessionWindowRule (C07.4, shared as C06.8): splitCheckToken answers 200 only for a token of exactly three parts with the
-// exact admin flag, a parsed timestamp and 0 <= age <= lifetime.
+// sessionWindowRule (C07.4, shared as C06.8): a token is accepted (status 200) only if it has exactly three parts, the
+// exact admin flag, a parsed timestamp and 0 <= age <= lifetime; the user name and flag returned are parts 0 and 1. On the
+// pinned decomposition this is a statement about splitCheckToken and its token parameter (C07.3 ties that parameter to
+// the opened plaintext); when a refactoring has dissolved that function into helpers the engine interprets inline, the
+// same statement is evaluated on Check, with the token being the plaintext the path has opened (sessionCode.opened).
 func sessionWindowRule(c *an.Ctx, p *an.Prog, rule string) {
-	split := p.Method("/cmd/whawty-auth", "webSessionFactory", "splitCheckToken")
-	if split == nil {
-		c.Undecided(rule, "main.(*webSessionFactory).splitCheckToken", "-", "UNRESOLVED: anchor not found")
-		return
+	sc := analyseSessionCode(p)
+	host := sc.split
+	if host == nil {
+		// the logic must then be visible in Check: a ParseInt among the instructions interpreted there
+		if sc.check != nil && sc.openFn != nil {
+			for _, in := range an.DeepInstrs(sc.check) {
+				if ci, ok := in.(ssa.CallInstruction); ok && an.CalleeName(ci) == "strconv.ParseInt" {
+					host = sc.check
+				}
+			}
+		}
+		if host == nil {
+			c.Undecided(rule, "main.(*webSessionFactory).splitCheckToken", "-", "UNRESOLVED: anchor not found (and the parse-and-window logic is not interpreted inline in Check)")
+			return
+		}
 	}
+	inline := host != sc.split
 	var bad []string
 	n200 := 0
-	an.EnumPaths(split, nil, nil, func(s *an.PathState) {
+	an.EnumPaths(host, nil, nil, func(s *an.PathState) {
 		ret := lastReturn(s)
-		if ret == nil {
+		if ret == nil || len(ret.Args) < 4 {
 			return
 		}
 		st := ret.Args[0]
-		if v, ok := st.ConstInt(); ok && v != 200 {
+		if never200(p, s, st) {
 			return
 		}
 		n200++
-		tokenP := s.T(split.Params[1])
+		var tokenP *an.Term
+		if inline {
+			tok, _, _, why := sc.opened(s)
+			if why != "" {
+				bad = append(bad, "200 "+why)
+				return
+			}
+			tokenP = tok.StripConv()
+		} else {
+			tokenP = s.T(host.Params[1])
+		}
 		isPart := func(t *an.Term, i int) bool {
 			f, ok := splitField(s, t)
 			return ok && f.is(tokenP, ":", i, 3) && f.Present
@@ -524,15 +583,10 @@ func sessionWindowRule(c *an.Ctx, p *an.Prog, rule string) {
 			bad = append(bad, "200 without ParseInt(part 2, 10, …) err==nil on path "+s.BlockPath())
 			return
 		}
-		// age = time.Since(time.Unix(parsed, 0)); age >= 0; age <= lifetime
+		// age = time.Since(time.Unix(parsed, 0)) (= now.Sub(time.Unix(parsed, 0))); age >= 0; age <= lifetime
 		lower, upper := false, false
 		for _, a := range s.Atoms {
-			if a.B == nil || !a.A.IsCallTo("time.Since") {
-				continue
-			}
-			since, _ := a.A.CallOf()
-			ux, _ := since.Args[0].CallOf()
-			if ux == nil || ux.Aux != "time.Unix" || ux.Args[0].K != extractOf(pi, 0).K || !ux.Args[1].IsConst("0") {
+			if a.B == nil || !ageOf(p, a.A, extractOf(pi, 0).K) {
 				continue
 			}
 			if a.Op == ">=" && a.B.IsConst("0") || a.Op == ">" && a.B.IsConst("-1") {
@@ -549,7 +603,7 @@ func sessionWindowRule(c *an.Ctx, p *an.Prog, rule string) {
 			bad = append(bad, "200 without age <= lifetime (expired tokens accepted) on path "+s.BlockPath())
 		}
 	})
-	c.Check(len(bad) == 0 && n200 > 0, rule, fnKey(split)+"|200-guards", p.Pos(split.Pos()), fmt.Sprintf("%d accepting paths: 3 parts ∧ exact flag ∧ ParseInt ok ∧ 0 <= age <= lifetime", n200), strings.Join(uniqS(bad), "; "))
+	c.Check(len(bad) == 0 && n200 > 0, rule, fnKey(host)+"|200-guards", p.Pos(host.Pos()), fmt.Sprintf("%d accepting paths: 3 parts ∧ exact flag ∧ ParseInt ok ∧ 0 <= age <= lifetime", n200), strings.Join(uniqS(bad), "; "))
 }
 
 func fieldNameOf(fa *ssa.FieldAddr) string {
@@ -592,8 +646,88 @@ func bufferOrigin(v ssa.Value, stack []*ssa.Call, depth int) (ssa.Value, []*ssa.
 		}
 	case *ssa.Call:
 		return resultOrigin(x, 0, stack, depth)
+	case *ssa.UnOp:
+		// the buffer read back from a local variable (a variable captured by a deferred closure lives in memory):
+		// everything ever stored in that variable must be the one make
+		cell, ok := x.X.(*ssa.Alloc)
+		if !ok || x.Op.String() != "*" {
+			return nil, nil
+		}
+		var o ssa.Value
+		var st []*ssa.Call
+		for _, r := range *cell.Referrers() {
+			w, ok := r.(*ssa.Store)
+			if !ok || w.Addr != ssa.Value(cell) {
+				continue
+			}
+			if c, ok := w.Val.(*ssa.Const); ok && c.IsNil() {
+				continue
+			}
+			oo, ss := bufferOrigin(w.Val, stack, depth+1)
+			if oo == nil || (o != nil && oo != o) {
+				return nil, nil
+			}
+			o, st = oo, ss
+		}
+		return o, st
 	}
 	return nil, nil
+}
+
+// rootedInSet: t is one of the buffers named by keys, a slice of it or the address of one of its elements.
+func rootedInSet(t *an.Term, keys map[string]bool) bool {
+	for t != nil {
+		t = t.StripConv()
+		if t == nil {
+			return false
+		}
+		if keys[t.K] {
+			return true
+		}
+		if (t.Op == "slice" || t.Op == "indexaddr") && len(t.Args) > 0 {
+			t = t.Args[0]
+			continue
+		}
+		return false
+	}
+	return false
+}
+
+// freshObjectVia: v is an object of this function invocation that nobody else holds yet — a local allocation, the
+// result of a private allocating helper (an.FreshObject), or such an object read back from a local variable cell
+// (a named result stays in memory when the function defers) into which nothing else is ever stored.
+func freshObjectVia(v ssa.Value) bool {
+	if an.FreshObject(v) {
+		return true
+	}
+	u, ok := v.(*ssa.UnOp)
+	if !ok || u.Op.String() != "*" {
+		return false
+	}
+	cell, ok := u.X.(*ssa.Alloc)
+	if !ok || cell.Referrers() == nil {
+		return false
+	}
+	n := 0
+	for _, r := range *cell.Referrers() {
+		switch x := r.(type) {
+		case *ssa.Store:
+			if x.Addr != ssa.Value(cell) {
+				return false // the variable's address is stored somewhere
+			}
+			if k, ok := x.Val.(*ssa.Const); ok && k.IsNil() {
+				continue
+			}
+			if !an.FreshObject(x.Val) {
+				return false
+			}
+			n++
+		case *ssa.UnOp, *ssa.DebugRef:
+		default:
+			return false // captured by a closure, passed on
+		}
+	}
+	return n > 0
 }
 
 func resultOrigin(c *ssa.Call, idx int, stack []*ssa.Call, depth int) (ssa.Value, []*ssa.Call) {
@@ -630,6 +764,38 @@ func valueLeaks(p *an.Prog, origin ssa.Value, stack []*ssa.Call, allowed map[str
 	}
 	seen := map[ssa.Value]bool{}
 	var walk func(v ssa.Value, open int)
+	seenCell := map[ssa.Value]bool{}
+	var walkCell func(cell ssa.Value, open int)
+	walkCell = func(cell ssa.Value, open int) {
+		if seenCell[cell] || cell.Referrers() == nil {
+			return
+		}
+		seenCell[cell] = true
+		for _, r := range *cell.Referrers() {
+			switch x := r.(type) {
+			case *ssa.DebugRef:
+			case *ssa.Store:
+				if x.Addr != cell {
+					leaks = append(leaks, "address of the key variable stored at "+p.InstrPos(r))
+				}
+			case *ssa.UnOp:
+				walk(x, open)
+			case *ssa.MakeClosure:
+				g, _ := x.Fn.(*ssa.Function)
+				if g == nil || !an.Inlinable(g) {
+					leaks = append(leaks, "captured by a function value at "+p.InstrPos(r))
+					continue
+				}
+				for i, b := range x.Bindings {
+					if b == cell && i < len(g.FreeVars) {
+						walkCell(g.FreeVars[i], open)
+					}
+				}
+			default:
+				leaks = append(leaks, fmt.Sprintf("key variable used by %T at %s", r, p.InstrPos(r)))
+			}
+		}
+	}
 	walk = func(v ssa.Value, open int) {
 		if seen[v] {
 			return
@@ -648,6 +814,30 @@ func valueLeaks(p *an.Prog, origin ssa.Value, stack []*ssa.Call, allowed map[str
 				walk(x, open)
 			case *ssa.Extract:
 				walk(x, open)
+			case *ssa.Slice:
+				walk(x, open) // key[:] is the same buffer
+			case *ssa.IndexAddr:
+				// the address of one key byte: written through (a wipe: when it may run is decided on the paths), never
+				// read or passed on
+				for _, rr := range *x.Referrers() {
+					switch y := rr.(type) {
+					case *ssa.DebugRef:
+					case *ssa.Store:
+						if y.Addr != ssa.Value(x) {
+							leaks = append(leaks, "address of a key byte stored at "+p.InstrPos(rr))
+						}
+					default:
+						leaks = append(leaks, fmt.Sprintf("key byte used by %T at %s", rr, p.InstrPos(rr)))
+					}
+				}
+			case *ssa.Store:
+				// kept in a local variable: follow what is read back from it, here and in the closures interpreted inline
+				cell, ok := x.Addr.(*ssa.Alloc)
+				if x.Val != v || !ok {
+					leaks = append(leaks, "stored at "+p.InstrPos(r))
+					continue
+				}
+				walkCell(cell, open)
 			case *ssa.Return:
 				if open == 0 {
 					leaks = append(leaks, "returned at "+p.InstrPos(r))
@@ -672,6 +862,9 @@ func valueLeaks(p *an.Prog, origin ssa.Value, stack []*ssa.Call, allowed map[str
 				n := an.CalleeName(x)
 				if _, isCall := r.(*ssa.Call); isCall && allowed[n] {
 					continue
+				}
+				if _, isDefer := r.(*ssa.Defer); isDefer && n == "builtin clear" && allowed[n] {
+					continue // runs at the exit; the paths decide whether that is after the cipher took its copy
 				}
 				leaks = append(leaks, "passed to "+shortName(n)+" at "+p.InstrPos(r))
 			default:
